@@ -25,9 +25,9 @@ import (
 type addrClass int
 
 const (
-	clPubSame addrClass = iota // public IP literal equal to the observed IP
-	clPubForeign               // public IP literal different from the observed IP
-	clDNSPublic                // public DNS name: no IP literal at all
+	clPubSame    addrClass = iota // public IP literal equal to the observed IP
+	clPubForeign                  // public IP literal different from the observed IP
+	clDNSPublic                   // public DNS name: no IP literal at all
 	clPrivate
 	clLoopback
 	clUnroutable
@@ -115,15 +115,35 @@ func hostPart(class addrClass, serial, v int, obs obsAddr) (string, net.IP, addr
 			class = clPrivate
 		}
 	case clPubForeign:
-		switch v % 4 {
+		k := v % 7
+		if k >= 4 && (!obs.Public || (k == 6 && net.IP(obs.IP).To4() == nil)) {
+			k -= 4
+		}
+		near := func(i int) (string, net.IP, bool) {
+			o := append(net.IP(nil), obs.IP...)
+			o[i] ^= 1
+			if o.To4() != nil {
+				return "/ip4/" + o.String(), o, true
+			}
+			return "/ip6/" + o.String(), o, true
+		}
+		switch k {
 		case 0:
 			txt, ip, up = ip4(11, S, V, 7)
 		case 1:
 			txt, ip, up = ip6(fmt.Sprintf("2600:%x::%x:7", S+1, V+1))
 		case 2:
 			txt, ip, up = ip4(13, S, V, 9)
-		default:
+		case 3:
 			txt, ip, up = ip6(fmt.Sprintf("64:ff9b::%x:%x", 0x0d00+S, 0x100+V)) // NAT64 of a public IPv4
+		case 4: // the observed IP's neighbour: only the last bit differs
+			txt, ip, up = near(len(obs.IP) - 1)
+		case 5: // differs from the observed IP near the front only
+			txt, ip, up = near(1)
+		default: // the observed IPv4 address wrapped in the NAT64 prefix: another IP
+			o := net.IP(obs.IP).To4()
+			txt, ip, _ = ip6(fmt.Sprintf("64:ff9b::%x:%x", int(o[0])<<8|int(o[1]), int(o[2])<<8|int(o[3])))
+			up = true
 		}
 	case clDNSPublic:
 		txt = fmt.Sprintf("/%s/h%d-%d.example.com", []string{"dns4", "dns6", "dns", "dnsaddr"}[v%4], serial, v)
@@ -211,10 +231,14 @@ func mkEntry(class addrClass, serial, v, tr, portSel int, obs obsAddr, self peer
 	if err != nil {
 		panic(fmt.Sprintf("c16 harness: template %q does not parse: %v", s, err))
 	}
+	dialable := mask[tr]
+	if tr == 5 {
+		dialable = mask[0] // /tcp/N/p2p/<requester> is the same address as /tcp/N
+	}
 	return entry{
 		Bytes: m.Bytes(), Str: s, Class: cls, Tr: tr,
 		Public:   cls == clPubSame || cls == clPubForeign || cls == clDNSPublic,
-		Dialable: mask[tr], IP: ip,
+		Dialable: dialable, IP: ip,
 	}
 }
 
@@ -259,7 +283,7 @@ const (
 	nDD
 )
 
-var ddNames = [...]string{"exact", "over", "short", "dribble", "tiny", "oversize", "garbageFramed", "garbageRaw", "earlyClose", "silence", "slow"}
+var ddNames = [...]string{"exact", "over", "short", "dribble", "tiny", "oversize", "garbageFramed", "garbageRaw", "earlyClose", "silence", "slow", "script"}
 
 const (
 	endKeep = iota // keep the stream open and wait for the server
@@ -269,13 +293,16 @@ const (
 )
 
 type ddSpec struct {
-	Kind   int
-	Chunks []int         // data bytes per message, used cyclically
-	K      int           // shortfall (short) / excess (over)
-	Frac   int           // percent of n at which the deviation happens
-	Dev    int           // size of the deviating message
-	End    int           // what the client does after its last write
-	Gap    time.Duration // pause between messages (slow)
+	Kind    int
+	Chunks  []int         // data bytes per message, used cyclically
+	K       int           // shortfall (short) / excess (over)
+	Frac    int           // percent of n at which the deviation happens
+	Dev     int           // size of the deviating message
+	End     int           // what the client does after its last write
+	Gap     time.Duration // pause between messages (slow)
+	Frag    int           // > 0: every write is cut into pieces of Frag bytes the server sees one by one
+	CutLast bool          // short: the shortfall is the missing tail of the last message
+	Script  []ddOp        // kind nDD (fuzz only): explicit writes, then well-formed messages up to Frac% of n
 }
 
 const (
@@ -283,11 +310,13 @@ const (
 	opFramed        // length-prefixed message with Size arbitrary body bytes
 	opRaw           // Size raw bytes without framing
 	opSleep
+	opWFCut // well-formed message with Size data bytes of which the last Cut are never written
 )
 
 type ddOp struct {
 	Kind  int
 	Size  int
+	Cut   int
 	Fill  byte
 	Delay time.Duration
 }
@@ -339,7 +368,13 @@ func (d ddSpec) plan(n int) []ddOp {
 	case ddOver:
 		wf(fill(n+d.K, d.Chunks))
 	case ddShort:
-		wf(fill(max(0, n-d.K), d.Chunks))
+		if sizes := fill(n, d.Chunks); d.CutLast && len(sizes) > 0 {
+			last := sizes[len(sizes)-1]
+			wf(sizes[:len(sizes)-1])
+			ops = append(ops, ddOp{Kind: opWFCut, Size: last, Cut: max(1, min(d.K, last))})
+		} else {
+			wf(fill(max(0, n-d.K), d.Chunks))
+		}
 	case ddTiny:
 		// no merging of small remainders here: small messages are the point
 		for rem, i := n, 0; rem > 0; i++ {
@@ -365,6 +400,15 @@ func (d ddSpec) plan(n int) []ddOp {
 			ops = append(ops, ddOp{Kind: opRaw, Size: -d.Dev})
 		}
 	case ddSilence:
+	case nDD:
+		sent := 0
+		for _, op := range d.Script {
+			if op.Kind == opWF {
+				sent += op.Size
+			}
+		}
+		ops = append(ops, d.Script...)
+		wf(fill(max(0, at-sent), d.Chunks))
 	}
 	return ops
 }
@@ -466,6 +510,8 @@ type scenario struct {
 	Peers  []peerInfo
 	Reqs   []*reqSpec // sorted by At (stable)
 	Raw    bool       // fuzz: entries are classified by function, not by construction
+	// CanDial overrides the by-construction predicate (fuzz)
+	CanDial func(ma.Multiaddr) bool
 }
 
 func (e obsAddr) netIP() net.IP { return net.IP(e.IP) }
@@ -525,7 +571,7 @@ func drawPeers(rt *rapid.T, maxPeers int) []peerInfo {
 func drawMask(rt *rapid.T) [nTransports]bool {
 	var m [nTransports]bool
 	bits := rapid.IntRange(0, 1<<nTransports-1).Draw(rt, "canDialMask")
-	if rapid.IntRange(0, 2).Draw(rt, "maskAll") == 0 {
+	if rapid.IntRange(0, 1).Draw(rt, "maskAll") == 0 {
 		bits = 1<<nTransports - 1
 	}
 	for i := range m {
@@ -550,7 +596,10 @@ func drawEntries(rt *rapid.T, serial int, obs obsAddr, self peer.ID, mask [nTran
 		n = rapid.IntRange(45, 60).Draw(rt, "naddrs")
 	}
 	// a leading run of ineligible entries is the interesting shape: choose how many
-	lead := rapid.IntRange(0, n).Draw(rt, "lead")
+	lead := 0
+	if rapid.IntRange(0, 2).Draw(rt, "hasLead") == 0 {
+		lead = rapid.IntRange(0, n).Draw(rt, "lead")
+	}
 	es := make([]entry, 0, n)
 	for i := 0; i < n; i++ {
 		if i > 0 && rapid.IntRange(0, 9).Draw(rt, "dup") == 0 {
@@ -594,6 +643,9 @@ func drawDD(rt *rapid.T, light bool) ddSpec {
 	d := ddSpec{Kind: kinds[rapid.IntRange(0, len(kinds)-1).Draw(rt, "ddKind")]}
 	d.Chunks = chunkMenus[rapid.IntRange(0, len(chunkMenus)-1).Draw(rt, "chunks")]
 	d.End = []int{endKeep, endKeep, endCloseWrite, endReset, endClose}[rapid.IntRange(0, 4).Draw(rt, "ddEnd")]
+	if rapid.IntRange(0, 5).Draw(rt, "fragmented") == 0 {
+		d.Frag = []int{700, 1000, 3000, 4003, 7000}[rapid.IntRange(0, 4).Draw(rt, "frag")]
+	}
 	switch d.Kind {
 	case ddExact:
 		d.End = []int{endKeep, endKeep, endKeep, endCloseWrite}[rapid.IntRange(0, 3).Draw(rt, "exactEnd")]
@@ -602,6 +654,7 @@ func drawDD(rt *rapid.T, light bool) ddSpec {
 		d.End = endKeep
 	case ddShort:
 		d.K = shortfalls[rapid.IntRange(0, len(shortfalls)-1).Draw(rt, "shortfall")]
+		d.CutLast = rapid.IntRange(0, 2).Draw(rt, "cutLast") == 0
 	case ddDribble:
 		d.Chunks = []int{rapid.IntRange(100, 200).Draw(rt, "dribA"), rapid.IntRange(100, 200).Draw(rt, "dribB"), rapid.IntRange(100, 200).Draw(rt, "dribC")}
 		d.End = endKeep
@@ -702,8 +755,10 @@ func drawRequest(rt *rapid.T, id int, peers []peerInfo, peerIdx int, mask [nTran
 	r.Conn = rapid.IntRange(0, len(p.Conns)-1).Draw(rt, "conn")
 	r.Entries = drawEntries(rt, id, p.Conns[r.Conn], p.ID, mask)
 	r.Nonce = rapid.Uint64().Draw(rt, "nonce")
-	r.Kind = []int{bodyRequest, bodyRequest, bodyRequest, bodyRequest, bodyRequest, bodyRequest, bodyRequest, bodyRequest, bodyRequest, bodyRequest, bodyRequest, bodyRequest,
-		bodyWrongType, bodyGarbage, bodyOversize, bodyNone, bodyPartial}[rapid.IntRange(0, 16).Draw(rt, "bodyKind")]
+	r.Kind = bodyRequest
+	if rapid.IntRange(0, 6).Draw(rt, "oddBody") == 0 {
+		r.Kind = []int{bodyWrongType, bodyGarbage, bodyOversize, bodyNone, bodyPartial}[rapid.IntRange(0, 4).Draw(rt, "bodyKind")]
+	}
 	if r.Kind != bodyRequest {
 		r.FirstEnd = rapid.IntRange(0, 3).Draw(rt, "firstEnd")
 		r.finishBody(rapid.IntRange(0, 1<<20).Draw(rt, "bodySel"))
